@@ -176,7 +176,36 @@ class C15(Prop):
             pass
         return out
 
+    def judge_ltl_unless(self, case):
+        """Untimed `unless` / `W` through the LTL front end, through the STL front end, and as its expansion
+        `(always p) or (p until q)`: three executions of the real offline monitor that must agree."""
+        v = Verdict()
+        v.nontrivial = True
+        v.info['variant:ltl-untimed-unless'] = 1
+        data, names = case['data'], sorted(case['data'])
+        n = len(data[names[0]])
+        try:
+            exp = drive.values(drive.dt_offline(case['expansion'], names, data, n))
+        except Exception as e:
+            v.skip = 'expansion raised %s' % type(e).__name__
+            return v
+        for label, run in (('stl', lambda: drive.values(drive.dt_offline(case['text'], names, data, n))),
+                           ('ltl', lambda: drive.values(ltl_spec(case['text'], names).evaluate(drive.dt_dataset(data, n))))):
+            try:
+                got = run()
+            except Exception as e:
+                v.bad('variant-raises:%s-untimed-unless' % label, '%s front end on %r raised %s: %s' % (
+                    label.upper(), case['text'], type(e).__name__, e))
+                continue
+            i = next((i for i in range(n) if not refd.same(got[i], exp[i])), None)
+            if i is not None:
+                v.bad('variant-differs:%s-untimed-unless' % label, '%s front end on %r gives %r at sample %d, the expansion %r '
+                      'gives %r; data=%s' % (label.upper(), case['text'], got[i], i, case['expansion'], exp[i], data))
+        return v
+
     def judge(self, case):
+        if case.get('ltl_unless'):
+            return self.judge_ltl_unless(case)
         v = Verdict()
         f, data = case['formula'], case['data']
         names = sorted(data)
@@ -294,7 +323,7 @@ class C15(Prop):
             except Exception as e:
                 v.bad('variant-raises:unless-expansion-ia', '%r [%s, io=%s] raised %s: %s' % (text, sem, io,
                                                                                           type(e).__name__, e))
-        if all(g[1] is None for g in lang.walk(f)) and 'unless' not in ops:
+        if all(g[1] is None for g in lang.walk(f)):
             v.info['variant:ltl'] = 1
             try:
                 s = ltl_spec(text, names)
@@ -358,6 +387,17 @@ class C15(Prop):
                  [('D', o1, o2) for o1 in self.BIN for o2 in lang.PREFIX]
         combos = [c for i, c in enumerate(combos) if i % ctx.nshards == ctx.shard]
         x, y, z = lang.V('x'), lang.V('y'), lang.V('z')
+        if ctx.shard == 0:
+            # untimed `unless` (the reference has no untimed unless: three real executions are compared)
+            for kw in ('unless', 'W'):
+                for tmpl, xt in (('(%s) KW (%s)', '((always (%s)) or ((%s) until (%s)))'),
+                                 ('not ((%s) KW (%s))', 'not ((always (%s)) or ((%s) until (%s)))'),
+                                 ('((%s) KW (%s)) and (z >= 0)', '(((always (%s)) or ((%s) until (%s))) and (z >= 0))'),
+                                 ('eventually ((%s) KW (%s))', 'eventually ((always (%s)) or ((%s) until (%s)))')):
+                    for p_, q_ in (('x >= 1', 'y <= 0.5'), ('x', 'y'), ('once (x >= 1)', 'y >= 2')):
+                        self.check(ctx, {'ltl_unless': True, 'text': tmpl.replace('KW', kw) % (p_, q_),
+                                         'expansion': xt % (p_, p_, q_), 'data': lang.gen_trace(rng, ['x', 'y', 'z'], rng.randint(1, 9))})
+            ctx.count('untimed-unless-through-both-front-ends', 24)
 
         def mk(o, *ks):
             iv = None
